@@ -24,11 +24,13 @@ def run(chk, tier, overlays=()):
     cow(chk, P)
     cloneptr(chk, P)
     noflow(chk, P)
+    remember(chk, P)
     relocate(chk, overlays)
     chk.floor("RELOCATE", 7)
     chk.floor("HANDOUT", 5)
     chk.floor("EFFECT", 8)
     chk.floor("NOFLOW", 10)
+    chk.floor("REMEMBER", 8)
     chk.assumptions += ["Array_/ArrayView_ element order, element counts of relocated ranges and growth policy are value/heap semantics and are not decided; of 'exactly-once destruction' only the clause 'the buffer is not released while it holds live elements' is"]
 
 
@@ -229,12 +231,66 @@ def noflow(chk, P):
             chk.judge(not bad, "NOFLOW", "%s:%s" % (cls.replace("SimTK::", ""), f.kind), f.loc, "copy operation lets the source's value through: %s" % bad[:3])
 
 
+def remember(chk, P):
+    chk.rule("REMEMBER", "ReinitOnCopyHelper (both specialisations): the remembered initial value m_reinitValue of a copy- or move-constructed object is the SOURCE's remembered "
+             "initial value -- written explicitly in the initialiser list from source.m_reinitValue, or by delegating to the value constructor with source.m_reinitValue -- "
+             "never the default member initialiser (which copies the object's current value, so that a later copy would carry the value through); the value constructors "
+             "set it from their argument; the two specialisations agree constructor by constructor")
+    table = {}
+    for f in sorted(P.all_fns(), key=lambda f: f.id):
+        if "ReinitOnCopyHelper<" not in f.name or (f.cls or "").split("::")[-1] != "ReinitOnCopyHelper" or f.kind not in ("ctor", "copyctor", "movector"):
+            continue
+        spec = "scalar" if ", true>" in f.name else "class"
+        ps = f.d.get("params", [])
+        src = ps[0][0] if ps else None
+        inits = f.d.get("inits", [])
+        own = [i for i in inits if str(i.get("field", "")).endswith("::m_reinitValue") and i.get("written")]
+        deleg = [i for i in inits if "ReinitOnCopyHelper" in str(i.get("base", "")) and i.get("written")]
+
+        def origin(x):
+            if x is None:
+                return "default-member-initialiser"
+            if sx_find(x, lambda y: y[0] in ("mem", "dmem") and str(y[2]).split("::")[-1] == "m_reinitValue" and var_of(y[1]) == src):
+                return "source.m_reinitValue"
+            if sx_find(x, lambda y: y[0] in ("mem", "dmem") and var_of(y[1]) == src):
+                return "source." + str(sx_find(x, lambda y: y[0] in ("mem", "dmem") and var_of(y[1]) == src)[0][2]).split("::")[-1]
+            if sx_find(x, lambda y: y[0] == "var" and y[1] == src):
+                return "argument"
+            if sx_find(x, lambda y: y[0] == "this"):
+                return "own-value"
+            return "value-initialised" if x in (["initlist", []],) else sx_str(x)
+        if own:
+            o = origin(own[0]["init"])
+        elif deleg:
+            o = "delegates(" + origin(deleg[0]["init"]) + ")"
+        else:
+            o = origin(None)
+        kind = {"copyctor": "copy", "movector": "move"}.get(f.kind) or ("default" if not ps else ("from-" + ("rvalue" if ps[0][1].endswith("&&") else "lvalue")))
+        table[(spec, kind)] = (o, f)
+        if f.kind in ("copyctor", "movector"):
+            chk.judge(o in ("source.m_reinitValue", "delegates(source.m_reinitValue)"), "REMEMBER", "%s:%s-constructor:m_reinitValue<-source.m_reinitValue" % (spec, kind), f.loc,
+                      "the remembered initial value of a %s-constructed object comes from: %s" % (kind, o))
+        elif kind.startswith("from-"):
+            chk.judge(o in ("argument", "own-value"), "REMEMBER", "%s:%s-constructor:m_reinitValue<-the-given-value" % (spec, kind), f.loc, "comes from: %s" % o)
+    kinds = sorted({k for _, k in table})
+    for k in kinds:
+        a, b = table.get(("scalar", k)), table.get(("class", k))
+        if a and b and k in ("copy", "move"):
+            chk.judge(a[0].replace("delegates(", "").rstrip(")") == b[0].replace("delegates(", "").rstrip(")"), "REMEMBER", "siblings-agree:%s" % k, b[1].loc, "scalar helper: %s; class helper: %s" % (a[0], b[0]))
+    chk.shape(("scalar", "move") in table and ("class", "move") in table and ("scalar", "copy") in table and ("class", "copy") in table, "REMEMBER", "helper-constructors-found", "",
+              "constructors seen: %s" % sorted("%s/%s" % k for k in table))
+
+
 _C = "SimTKcommon/include/SimTKcommon/internal/CloneOnWritePtr.h"
 _R = "SimTKcommon/include/SimTKcommon/internal/ReferencePtr.h"
 _I = "SimTKcommon/include/SimTKcommon/internal/ReinitOnCopy.h"
 _K = "SimTKcommon/include/SimTKcommon/internal/ClonePtr.h"
 _A = "SimTKcommon/include/SimTKcommon/internal/Array.h"
 MUTATIONS = [
+    dict(name="seeded (sub-agent): class-type ReinitOnCopy move constructor leaves the remembered value to the default member initialiser", arm=True, file=_I,
+         old="    :   T(std::move(source)), m_reinitValue(std::move(source.m_reinitValue)) {}", new="    :   T(std::move(source)) {}", expect="REMEMBER:class:move-constructor"),
+    dict(name="scalar ReinitOnCopy move constructor remembers the moved value", file=_I,
+         old="        m_reinitValue(std::move(source.m_reinitValue)) {}", new="        m_reinitValue(source.m_value) {}", expect="REMEMBER:scalar:move-constructor"),
     dict(name="seeded (sub-agent): insertGapAt moves the elements out first and destroys only those before the gap", arm=True, file=_A,
          old="        moveConstructThenDestructSource(newdata, newdata+before, data());\n        // Copy the elements at and after the insertion point, leaving a gap\n        // of n elements.\n        moveConstructThenDestructSource(newdata+before+n,\n                                        newdata+before+n+after,\n                                        p); // i.e., pData+before",
          new="        moveConstruct(newdata, newdata+before, data());\n        moveConstruct(newdata+before+n, newdata+before+n+after, p);\n        destruct(data(), p);",
